@@ -10,6 +10,20 @@ for d in /tmp/seed-C*-$R; do
   [ -f seeded/$n/.done ] && continue
   todo+=($n)
 done
+# a seed that changes what the Coq instances are generated from rebuilds the development in place: those run alone
+par=(); alone=()
+for n in "${todo[@]}"; do
+  if grep -q '^+++ b/src/wormhole_mailbox_server/\(server_tap.py\|database.py\|db-schemas/\)' /tmp/seed-$n/_seed/patch.diff; then alone+=($n); else par+=($n); fi
+done
+one='n=$0; p=${n%%-*}; bash harness/seedtest2.sh $p $n > /tmp/seedtest-$n.log 2>&1; touch seeded/$n/.done;
+  s=$(grep -c "^VIOLATION" /tmp/seedtest-$n.log); c=$(grep "^VIOLATION" /tmp/seedtest-$n.log | grep -vc no-failing-input-found);
+  echo "$n: $(head -1 /tmp/seedtest-$n.log | cut -c1-90) | violations=$s concrete=$c | $(grep "^check" /tmp/seedtest-$n.log)";
+  git -C /repo worktree remove --force /tmp/seed-$n 2>/dev/null'
+[ ${#par[@]} -gt 0 ] && printf '%s\n' "${par[@]}" | xargs -P $J -I{} bash -c "$one" {}
+for n in "${alone[@]}"; do bash -c "$one" $n; done
+[ ${#alone[@]} -gt 0 ] && ./check build > /dev/null 2>&1
+git -C /repo worktree prune
+exit 0
 printf '%s\n' "${todo[@]}" | xargs -P $J -I{} bash -c 'n={}; p=${n%%-*}; bash harness/seedtest2.sh $p $n > /tmp/seedtest-$n.log 2>&1; touch seeded/$n/.done;
   s=$(grep -c "^VIOLATION" /tmp/seedtest-$n.log); c=$(grep "^VIOLATION" /tmp/seedtest-$n.log | grep -vc no-failing-input-found);
   echo "$n: $(head -1 /tmp/seedtest-$n.log | cut -c1-90) | violations=$s concrete=$c | $(grep "^check" /tmp/seedtest-$n.log)";
